@@ -61,10 +61,14 @@ static bool arena_guards_intact(arena_t *a) {
 static void arena_drop(arena_t *a) { if (a->base) { UNPOISON(a->base, a->size); hm_free(a->base); a->base = NULL; } }
 
 /* ---- universe & model --------------------------------------------------- */
-typedef struct { unsigned char *k; size_t kl; unsigned char md5[16]; } ukey_t;
+typedef struct { unsigned char *k, *base; size_t kl; unsigned char md5[16]; } ukey_t;   /* k = base + (index & 3): lookups pass this pointer, puts and removes a fresh (aligned) copy - equal keys, different alignment */
 static ukey_t *UK; static int NU;
 static unsigned char **MV; static size_t *MVL; static bool *MP; static int MN;
 static qhasharr_t *T; static int CAP;
+/* a second handle attached to the same region for the whole life of the table (another process on the shared mapping). Operations are issued
+ * through either handle (the two swap roles at random), and after every operation the idle handle must observe what the model holds: whatever
+ * a handle remembers between calls must not outlive a change made through the other one */
+static qhasharr_t *T2;
 static uint64_t USALT;
 
 static size_t slots_of(size_t vl) { return vl <= DS ? 1 : 1 + (vl - DS + ES - 1) / ES; }
@@ -79,11 +83,11 @@ static void universe_alloc(int n) {
 }
 static bool uk_add(const void *k, size_t kl) {
     for (int i = 0; i < NU; i++) if (UK[i].kl == kl && !memcmp(UK[i].k, k, kl)) return false;
-    UK[NU].k = vf_xdup(k, kl); UK[NU].kl = kl; ref_md5(k, kl, UK[NU].md5); NU++;
+    UK[NU].base = hm_alloc(kl + (size_t)(NU & 3)); UK[NU].k = UK[NU].base + (NU & 3); memcpy(UK[NU].k, k, kl); UK[NU].kl = kl; ref_md5(k, kl, UK[NU].md5); NU++;
     return true;
 }
 static void universe_free(void) {
-    for (int i = 0; i < NU; i++) { hm_free(UK[i].k); if (MP[i]) hm_free(MV[i]); }
+    for (int i = 0; i < NU; i++) { hm_free(UK[i].base); if (MP[i]) hm_free(MV[i]); }
     hm_free(UK); hm_free(MV); hm_free(MVL); hm_free(MP); NU = 0; UK = NULL;
 }
 
@@ -270,6 +274,8 @@ static void switch_over(void) {
     arena_t t = A1; A1 = A2; A2 = t;
     T = qhasharr(A1.region, 0);
     if (!T) { fprintf(stderr, "attach failed\n"); exit(2); }
+    if (T2) T2->free(T2);
+    T2 = qhasharr(A1.region, 0); if (!T2) { fprintf(stderr, "attach failed\n"); exit(2); }
     vf_count("switch_overs_to_relocated_copy", 1);
     vf_log("switch-over to relocated copy");
 }
@@ -294,6 +300,10 @@ static void after_op(bool full) {
         image_walk(A1.region, "C07");
         if (!abandon) observe(T, true, "C06");   /* model divergence would invalidate the rest of the history */
         if (!abandon && full) attach_compare();
+    }
+    if (T2 && !abandon) {   /* the long-lived second handle: same keys, values, counters and walk as the model; then the handles may swap roles */
+        observe(T2, true, P == 6 ? "C06" : "C07"); vf_count("long_lived_second_handle_observations", 1);
+        if (!abandon && rng_chance(&R, 1, 3)) { qhasharr_t *x = T; T = T2; T2 = x; vf_count("operations_switched_to_the_other_handle", 1); }
     }
 }
 
@@ -374,10 +384,12 @@ static void table_new(int cap, size_t shift) {
     T = qhasharr(A1.region, rsize);
     if (!T) { fprintf(stderr, "qhasharr(%d) failed errno=%d\n", cap, errno); exit(2); }
     CAP = cap; abandon = false; foreign_mismatch = false;
+    if (T2) T2->free(T2);
+    T2 = qhasharr(A1.region, 0); if (!T2) { fprintf(stderr, "qhasharr(mem,0) failed on a fresh table errno=%d\n", errno); exit(2); }
     if (slack) vf_count("regions_with_slack_bytes", 1);
     if (HDR(A1.region)->maxslots != cap) { judge(P == 6 ? "C06" : "C07", "header-capacity", "a region of %zu bytes (%d slots + %zu bytes) was initialised with maxslots=%d", rsize, cap, slack, HDR(A1.region)->maxslots); }
 }
-static void table_free(void) { if (T) T->free(T); T = NULL; arena_drop(&A1); arena_drop(&A2); }
+static void table_free(void) { if (T) T->free(T); T = NULL; if (T2) T2->free(T2); T2 = NULL; arena_drop(&A1); arena_drop(&A2); }
 
 /* ---- phase A: exhaustive images ------------------------------------------- */
 typedef struct { unsigned char *img; unsigned char m[8]; int depth; } st_t;
